@@ -355,7 +355,7 @@ fn check_built(bytes: &[u8], specs: &[PageSpec], info_kind: usize) -> std::resul
 
 pub fn run(tier: Tier, _seed: u64, tally: &mut Tally) -> CheckMeta {
     let bound = if tier.thorough() { 5 } else { 4 };
-    explore("c10.builder", Limits::new(bound).wall(if tier.thorough() { 3000 } else { 120 }), tally, builder_case);
+    explore("c10.builder", Limits::new(bound).wall(if tier.thorough() { 3000 } else { 600 }), tally, builder_case);
     tally.validated = tally.evaluations;
     tally.sample(json!({"pages": 2, "deviations": ["ops=shorthand-TD", "other=nested-dict"], "oracles": ["reload: order by marker, boxes, rotation, extras, ops, info", "independent structural reader"]}));
     CheckMeta {
